@@ -541,3 +541,233 @@ Section Glue2.
     apply H. exact (ext_project F ccs Hok ST S c HS Hc).
   Qed.
 End Glue2.
+
+(* ------------------------------------------------------------------------------------------ *)
+(** * Helpers for the complete solver *)
+
+Lemma wp_bind_assoc : forall QA QP QF A B C (m : M A) (f : A -> M B) (k : B -> M C) Q s,
+  wp QA QP QF (bind m (fun a => bind (f a) k)) Q s <-> wp QA QP QF (bind (bind m f) k) Q s.
+Proof. intros. unfold wp, bind. destruct (m s); reflexivity. Qed.
+
+(* a credulous CO query about arguments of the merged component is local to it: every other
+   component has a complete extension *)
+Lemma co_merged_local : forall F c rest la,
+  decomp_ok F (c :: rest) -> (forall i, In i la -> i < length (c_ids c)) ->
+  (cred CO F (map (cc_global c) la) <-> cred CO (c_af c) la).
+Proof.
+  intros F c rest la Hok Hla. apply (cred_comp F (c :: rest) Hok CO c la).
+  - now left.
+  - intros i Hi. apply in_seq. specialize (Hla i Hi). lia.
+  - intros c' Hc'. apply (co_exists (c_af c')). exact (comp_af_wf F (c :: rest) Hok c' Hc').
+Qed.
+
+(* ------------------------------------------------------------------------------------------ *)
+(** * The whole-framework theorems *)
+
+Section Whole.
+Variable oracle : nat -> cnf -> list lit -> answer.
+Variable thr : nat.
+Hypothesis Hthr : 1 <= thr.
+Hypothesis Hvalid : valid_oracle oracle.
+Variable F : af.
+Variable g : gview.
+Hypothesis Hwf : wf F.
+
+(* facts about the graph algorithms, proved elsewhere *)
+Hypothesis Hcc : exists ccs, all_ccs g = Some ccs /\ decomp_ok F ccs.
+Hypothesis Hmerged : forall al, al <> [] -> (forall a, In a al -> In a (args F)) ->
+  exists s' c rest,
+    merged_cc_of g (cc_new g) al = Some (s', c) /\ (forall a, In a al -> In a (c_ids c)) /\
+    remaining_ccs g s' = Some rest /\ decomp_ok F (c :: rest).
+Hypothesis Hgr : gr F (grounded g) /\ NoDup (grounded g).
+Hypothesis Hgr_cc : forall c, compact_af (c_af c) (length (c_ids c)) ->
+  gr (c_af c) (grounded (view_of_af (c_af c))).
+
+(* ---------------------------------------------------------------- (G1) GR *)
+Theorem gr_se_whole : gr F (gr_se g) /\ NoDup (gr_se g) /\ incl (gr_se g) (args F).
+Proof.
+  unfold gr_se. destruct Hgr as [H1 H2]. split; [exact H1|split; [exact H2|]].
+  exact (ext_incl GR F _ H1).
+Qed.
+
+Lemma gr_meets_cred : forall al, meets al (grounded g) = true <-> cred GR F al.
+Proof.
+  intros al. destruct Hgr as [H1 _]. rewrite meets_spec. split.
+  - intros [a [Ha Hg]]. exists (grounded g). split; [exact H1|now exists a].
+  - intros [S [HS [a [Ha HaS]]]]. exists a. split; [exact Ha|].
+    apply (gr_unique2 F S (grounded g) Hwf HS H1 a). exact HaS.
+Qed.
+
+Lemma gr_meets_skep : forall al, meets al (grounded g) = true <-> skep GR F al.
+Proof.
+  intros al. destruct Hgr as [H1 _]. rewrite meets_spec. split.
+  - intros [a [Ha Hg]] S HS. exists a. split; [exact Ha|].
+    apply (gr_unique2 F (grounded g) S Hwf H1 HS a). exact Hg.
+  - intros H. exact (H (grounded g) H1).
+Qed.
+
+Theorem gr_dc_whole : forall al b cert, gr_dc g al = (b, cert) ->
+  (b = true <-> cred GR F al) /\
+  match cert with
+  | Some e => b = true /\ gr F e /\ NoDup e /\ incl e (args F) /\ exists a, In a al /\ In a e
+  | None => b = false
+  end.
+Proof.
+  intros al b cert H. unfold gr_dc in H. cbv zeta in H.
+  destruct (meets al (grounded g)) eqn:Hm; injection H as <- <-.
+  - split; [split; [intros _; now apply gr_meets_cred|reflexivity]|].
+    destruct gr_se_whole as [H1 [H2 H3]]. split; [reflexivity|]. split; [exact H1|].
+    split; [exact H2|]. split; [exact H3|]. now apply meets_spec.
+  - split; [|reflexivity]. split; [discriminate|]. intros Hc. apply gr_meets_cred in Hc. congruence.
+Qed.
+
+Theorem gr_ds_whole : forall al b cert, gr_ds g al = (b, cert) ->
+  (b = true <-> skep GR F al) /\
+  match cert with
+  | Some e => b = false /\ gr F e /\ NoDup e /\ incl e (args F) /\ forall a, In a al -> ~ In a e
+  | None => b = true
+  end.
+Proof.
+  intros al b cert H. unfold gr_ds in H. cbv zeta in H.
+  destruct (meets al (grounded g)) eqn:Hm; injection H as <- <-.
+  - split; [|reflexivity]. split; [intros _; now apply gr_meets_skep|reflexivity].
+  - split; [split; [discriminate|intros Hc; apply gr_meets_skep in Hc; congruence]|].
+    destruct gr_se_whole as [H1 [H2 H3]]. split; [reflexivity|]. split; [exact H1|].
+    split; [exact H2|]. split; [exact H3|]. now apply meets_false.
+Qed.
+
+(* ---------------------------------------------------------------- (G2) ST, single extension *)
+Theorem st_se_whole :
+  on_done (st_se oracle thr g)
+    (fun r => match r with
+              | Some L => st F L /\ NoDup L /\ incl L (args F)
+              | None => forall S, ~ st F S
+              end).
+Proof.
+  destruct Hcc as [ccs [Hall Hok]]. apply wpT_on_done. intros s.
+  unfold st_se, ccs_m. rewrite Hall, wp_bind, wp_ret.
+  eapply wp_mono;
+    [|apply (st_se_loop_spec oracle thr Hthr Hvalid ccs [] s);
+      intros c Hc; exact (comp_compact F ccs Hok c Hc)].
+  intros [L|] s' H; cbv beta in H.
+  - destruct H as [Ls [HLs ->]]. cbn [app]. exact (glue_ext_full F ccs Hok ST Ls HLs).
+  - destruct H as [c [Hc Hno]]. exact (comp_no_ext F ccs Hok ST c Hc Hno).
+Qed.
+
+(* ---------------------------------------------------------------- (G3) ST, acceptance *)
+Theorem st_dc_whole : forall al,
+  on_done (st_dc oracle thr g al)
+    (fun r => match r with
+              | (true, Some L) => st F L /\ NoDup L /\ incl L (args F) /\
+                                  (exists a, In a al /\ In a L) /\ cred ST F al
+              | (false, None) => ~ cred ST F al
+              | _ => False
+              end).
+Proof.
+  intros al. destruct Hcc as [ccs [Hall Hok]]. apply wpT_on_done. intros s.
+  unfold st_dc, st_accept, ccs_m. rewrite Hall, wp_bind, wp_ret. cbn [negb].
+  eapply wp_mono;
+    [|apply (st_accept_loop_spec oracle thr Hthr Hvalid al true false ccs [] false s);
+      intros c Hc; exact (comp_compact F ccs Hok c Hc)].
+  intros r s' [[Rs [HRs ->]]|[-> [c [Hc Hno]]]].
+  - cbn [orb negb app]. destruct (existsb snd Rs) eqn:Hex.
+    + destruct (acc_glue_st F ccs Hok al true Rs HRs) as [H1 [H2 H3]].
+      pose proof (acc_found ccs al Rs HRs Hex) as H4.
+      split; [exact H1|]. split; [exact H2|]. split; [exact H3|]. split; [exact H4|].
+      exists (glue ccs (map fst Rs)). split; [exact H1|exact H4].
+    + exact (acc_not_found F ccs Hok al Rs HRs Hex).
+  - cbn [st_cc_post] in Hno. intros [S [HS _]]. exact (comp_no_ext F ccs Hok ST c Hc Hno S HS).
+Qed.
+
+Theorem st_ds_whole : forall al,
+  on_done (st_ds oracle thr g al)
+    (fun r => match r with
+              | (false, Some L) => st F L /\ NoDup L /\ incl L (args F) /\
+                                   (forall a, In a al -> ~ In a L) /\ ~ skep ST F al
+              | (true, None) => skep ST F al
+              | _ => False
+              end).
+Proof.
+  intros al. destruct Hcc as [ccs [Hall Hok]]. apply wpT_on_done. intros s.
+  unfold st_ds, st_accept, ccs_m. rewrite Hall, wp_bind, wp_ret. cbn [negb].
+  eapply wp_mono;
+    [|apply (st_accept_loop_spec oracle thr Hthr Hvalid al false true ccs [] true s);
+      intros c Hc; exact (comp_compact F ccs Hok c Hc)].
+  intros r s' [[Rs [HRs ->]]|[-> [c [Hc Hno]]]].
+  - cbn [orb negb app].
+    destruct (acc_glue_st F ccs Hok al false Rs HRs) as [H1 [H2 H3]].
+    pose proof (acc_avoids F ccs Hok al Rs HRs) as H4.
+    split; [exact H1|]. split; [exact H2|]. split; [exact H3|]. split; [exact H4|].
+    intros Hsk. destruct (Hsk _ H1) as [a [Ha HaL]]. exact (H4 a Ha HaL).
+  - cbn [st_cc_post] in Hno. exact (comp_skep F ccs Hok al c Hc Hno).
+Qed.
+
+(* ---------------------------------------------------------------- (G4) CO, credulous *)
+Theorem co_dc_whole : forall e al,
+  enc_base e = BCo -> al <> [] -> (forall a, In a al -> In a (args F)) ->
+  on_done (co_dc oracle thr e g al) (fun b => b = true <-> cred CO F al).
+Proof.
+  intros e al He Hne Hal. destruct (Hmerged al Hne Hal) as [s0 [c [rest [Hm [Hin [Hrem Hok]]]]]].
+  destruct (locals_some c al Hin) as [la [Hl [Hmap Hlt]]].
+  pose proof (comp_compact F (c :: rest) Hok c (or_introl eq_refl)) as HF.
+  apply wpT_on_done. intros s. unfold co_dc, merged_m, locals_m.
+  rewrite wp_bind, wp_new_solver, Hm, wp_bind, wp_ret. cbv zeta. cbn [snd]. rewrite Hl.
+  rewrite wp_bind_assoc, wp_bind.
+  eapply wp_mono;
+    [|apply (cred_query_spec oracle thr Hthr Hvalid e (c_af c) (length (c_ids c)) HF la Hlt true
+               (st_new s)); [apply cls_new|apply sb_new]].
+  intros r s'' Hr. rewrite wp_ret. rewrite He in Hr. cbn [basep] in Hr.
+  rewrite <- Hmap, (co_merged_local F c rest la Hok Hlt).
+  destruct r as [m|].
+  - split; [intros _|reflexivity]. destruct Hr as [H1 H2]. apply meets_spec in H2.
+    destruct H2 as [a [Ha HaS]]. exists (assignment_to_extension (length (c_ids c)) e m).
+    split; [exact H1|now exists a].
+  - split; [discriminate|]. intros [S [HS [a [Ha HaS]]]]. specialize (Hr S HS).
+    pose proof (proj1 (meets_false la S) Hr a Ha). contradiction.
+Qed.
+
+Theorem co_dc_cert_whole : forall e al,
+  enc_base e = BCo -> al <> [] -> (forall a, In a al -> In a (args F)) ->
+  on_done (co_dc_cert oracle thr e g al)
+    (fun r => match r with
+              | (true, Some L) => co F L /\ incl L (args F) /\
+                                  (exists a, In a al /\ In a L) /\ cred CO F al
+              | (false, None) => ~ cred CO F al
+              | _ => False
+              end).
+Proof.
+  intros e al He Hne Hal. destruct (Hmerged al Hne Hal) as [s0 [c [rest [Hm [Hin [Hrem Hok]]]]]].
+  destruct (locals_some c al Hin) as [la [Hl [Hmap Hlt]]].
+  pose proof (comp_compact F (c :: rest) Hok c (or_introl eq_refl)) as HF.
+  apply wpT_on_done. intros s. unfold co_dc_cert, merged_m, locals_m, remaining_m.
+  rewrite Hm, wp_bind, wp_ret. cbv zeta. cbn [snd fst]. rewrite wp_bind, wp_new_solver, Hl, Hrem.
+  rewrite wp_bind_assoc, wp_bind.
+  eapply wp_mono;
+    [|apply (cred_query_spec oracle thr Hthr Hvalid e (c_af c) (length (c_ids c)) HF la Hlt false
+               (st_new s)); [apply cls_new|apply sb_new]].
+  intros r s'' Hr. rewrite He in Hr. cbn [basep] in Hr. destruct r as [m|].
+  - rewrite wp_bind, !wp_ret. rewrite (proj1 HF), seq_length.
+    rewrite <- (glue_map (fun oc => grounded (view_of_af (c_af oc))) rest).
+    set (X := assignment_to_extension (length (c_ids c)) e m) in *.
+    change (lift c X ++ glue rest (map (fun oc => grounded (view_of_af (c_af oc))) rest))
+      with (glue (c :: rest) (X :: map (fun oc => grounded (view_of_af (c_af oc))) rest)).
+    set (L := glue (c :: rest) (X :: map (fun oc => grounded (view_of_af (c_af oc))) rest)).
+    destruct Hr as [H1 H2].
+    assert (HL : co F L).
+    { apply (glue_ext F (c :: rest) Hok CO). constructor; [exact H1|].
+      apply Forall2_map_same. intros oc Hoc.
+      assert (Hoc' : In oc (c :: rest)) by now right.
+      apply (gr_co (c_af oc)); [exact (comp_af_wf F (c :: rest) Hok oc Hoc')|].
+      apply Hgr_cc. exact (comp_compact F (c :: rest) Hok oc Hoc'). }
+    assert (Hmeet : exists a, In a al /\ In a L).
+    { apply meets_spec in H2. destruct H2 as [i [Hi HiX]]. exists (cc_global c i). split.
+      - rewrite <- Hmap. now apply in_map.
+      - unfold L. cbn [glue]. apply in_or_app. left. apply in_lift. now exists i. }
+    split; [exact HL|]. split; [exact (co_incl F L HL)|]. split; [exact Hmeet|].
+    exists L. split; [exact HL|exact Hmeet].
+  - rewrite wp_ret. rewrite <- Hmap, (co_merged_local F c rest la Hok Hlt).
+    intros [S [HS [a [Ha HaS]]]]. specialize (Hr S HS).
+    pose proof (proj1 (meets_false la S) Hr a Ha). contradiction.
+Qed.
+
+End Whole.
